@@ -9,12 +9,12 @@
 package main
 
 import (
-	"strings"
 	"encoding/json"
 	"fmt"
 	"os"
 	"runtime/debug"
 	"sort"
+	"strings"
 	"sync"
 	"time"
 
@@ -49,10 +49,10 @@ func universe(n int) []*triple.Triple {
 		model.T(na, model.PT("p", model.T2), model.ON(nb)),                         // 2 same id, other instant
 		model.T(nc, p, model.ON(nb)),                                               // 3 other subject
 		model.T(na, p, model.ON(nc)),                                               // 4 other object
-		model.T(na, model.PI(longX+"q"), model.ON(nb)),                                   // 5 other predicate id
+		model.T(na, model.PI(longX+"q"), model.ON(nb)),                             // 5 other predicate id
 		model.T(na, p, model.OP(model.PT("p", model.T1))),                          // 6 predicate-valued object
 		model.T(nc, model.PT("p", model.T1), model.OL(model.L(literal.Text, "x"))), // 7 literal object
-		model.T(nb, model.PT(longX+"q", model.T1), model.ON(na)),                         // 8 node as subject here, object elsewhere
+		model.T(nb, model.PT(longX+"q", model.T1), model.ON(na)),                   // 8 node as subject here, object elsewhere
 		model.T(na, model.PT("p", model.T1), model.OP(p)),                          // 9 predicate-valued object of the other kind
 	}
 	return u[:n]
@@ -63,9 +63,9 @@ var (
 	argS = []*node.Node{na, nc, nb, nz}
 	argP = []*predicate.Predicate{
 		model.PI("p"), model.PT("p", model.T1), model.PT("p", model.T2),
-		model.PT("p", model.T3),                // anchor never stored
-		model.PI(longX+"q"), model.PT(longX+"q", model.T1), // q@T1 stored only in the larger universe
-		model.PI(longX+"r"),                         // identifier never stored
+		model.PT("p", model.T3),                              // anchor never stored
+		model.PI(longX + "q"), model.PT(longX+"q", model.T1), // q@T1 stored only in the larger universe
+		model.PI(longX + "r"),                 // identifier never stored
 		model.PT("p", model.T1.In(zonePlus2)), // same instant as p@T1, written in another zone
 	}
 	argO = []*triple.Object{
@@ -167,6 +167,33 @@ func pick(u []*triple.Triple, idx []int) []*triple.Triple {
 }
 
 // build replays path on a fresh memory graph.
+// primeAll runs the listing, Exist for every universe triple and every lookup of the grid on g and drops the
+// answers: whatever the driver might keep from a read is in place when the next write arrives.
+var primeAll func(g storage.Graph, u []*triple.Triple)
+
+// buildPrimed replays path like build, but reads everything just before the LAST operation (read, write, read).
+func buildPrimed(u []*triple.Triple, path []op) (storage.Graph, uint32, string) {
+	if len(path) == 0 {
+		return build(u, path)
+	}
+	g, s, msg := build(u, path[:len(path)-1])
+	if msg != "" {
+		return g, s, msg
+	}
+	primeAll(g, u)
+	o := path[len(path)-1]
+	var err error
+	if o.Kind == "add" {
+		err = g.AddTriples(model.Ctx, pick(u, o.Idx))
+	} else {
+		err = g.RemoveTriples(model.Ctx, pick(u, o.Idx))
+	}
+	if err != nil {
+		return nil, 0, o.String() + ": " + err.Error()
+	}
+	return g, applyModel(s, o), ""
+}
+
 func build(u []*triple.Triple, path []op) (storage.Graph, uint32, string) {
 	st := memory.NewStore()
 	g, err := st.NewGraph(model.Ctx, "?g")
@@ -189,9 +216,10 @@ func build(u []*triple.Triple, path []op) (storage.Graph, uint32, string) {
 }
 
 type lcase struct {
-	N     int   `json:"universe"`
-	Path  []op  `json:"path"`
-	Query *qref `json:"query,omitempty"` // nil: the listing
+	N      int   `json:"universe"`
+	Path   []op  `json:"path"`
+	Query  *qref `json:"query,omitempty"` // nil: the listing
+	Primed bool  `json:"reads_before_the_last_write,omitempty"`
 }
 
 // verdict of one lookup in one state.
@@ -278,7 +306,11 @@ func main() {
 			return false, err.Error()
 		}
 		u := universe(c.N)
-		g, s, msg := build(u, c.Path)
+		bf := build
+		if c.Primed {
+			bf = buildPrimed
+		}
+		g, s, msg := bf(u, c.Path)
 		if msg != "" {
 			return false, msg
 		}
@@ -293,6 +325,15 @@ func main() {
 		}
 		return false, fmt.Sprintf("path=%v class=%s shape=%s\n %s", c.Path, v.class, v.shape, v.detail)
 	})
+	primeAll = func(g storage.Graph, u []*triple.Triple) {
+		lookup.Call(g, lookup.Query{M: lookup.Triples}, storage.DefaultLookup)
+		for _, t := range u {
+			g.Exist(model.Ctx, t)
+		}
+		for k := range qs {
+			lookup.Call(g, qs[k].query(), storage.DefaultLookup)
+		}
+	}
 	r.MaybeReplay()
 	if err := lookup.SelfTest(); err != nil {
 		common.Machinery("MODEL-INVALID: %v", err)
@@ -339,34 +380,40 @@ func main() {
 		lt, le, ln := 0, 0, 0
 		lsizes := map[int]int{}
 		lpm := map[string]int{}
-		for _, o := range ops {
-			path := append(append([]op{}, paths[s]...), o)
-			var g storage.Graph
-			var ns uint32
-			var msg string
-			if p := common.Guard(func() { g, ns, msg = build(u, path) }); p != nil {
-				msg = fmt.Sprintf("panic: %v", p)
-			}
-			lt++
-			if msg != "" {
-				sh.Fail(common.Failure{Check: "lookup", Class: "write-history", Shape: "operation-error", Case: lcase{N: n, Path: path}, Detail: msg})
-				continue
-			}
-			set := members(u, ns)
-			if v := judgeListing(g, set); !v.ok {
-				sh.Fail(common.Failure{Check: "lookup", Class: v.class, Shape: v.shape, Case: lcase{N: n, Path: path}, Detail: fmt.Sprintf("path=%v\n %s", path, v.detail)})
-			}
-			for k := range qs {
-				v := judge(g, set, qs[k].query())
-				le++
-				lsizes[v.size]++
-				if v.nontrivial {
-					ln++
-					lpm[qs[k].Method]++
+		for _, primed := range []bool{false, true} {
+			for _, o := range ops {
+				path := append(append([]op{}, paths[s]...), o)
+				bf := build
+				if primed {
+					bf = buildPrimed
 				}
-				if !v.ok {
-					q := qs[k]
-					sh.Fail(common.Failure{Check: "lookup", Class: v.class, Shape: v.shape, Case: lcase{N: n, Path: path, Query: &q}, Detail: fmt.Sprintf("path=%v\n %s", path, v.detail)})
+				var g storage.Graph
+				var ns uint32
+				var msg string
+				if p := common.Guard(func() { g, ns, msg = bf(u, path) }); p != nil {
+					msg = fmt.Sprintf("panic: %v", p)
+				}
+				lt++
+				if msg != "" {
+					sh.Fail(common.Failure{Check: "lookup", Class: "write-history", Shape: "operation-error", Case: lcase{N: n, Path: path, Primed: primed}, Detail: msg})
+					continue
+				}
+				set := members(u, ns)
+				if v := judgeListing(g, set); !v.ok {
+					sh.Fail(common.Failure{Check: "lookup", Class: v.class, Shape: v.shape, Case: lcase{N: n, Path: path, Primed: primed}, Detail: fmt.Sprintf("path=%v\n %s", path, v.detail)})
+				}
+				for k := range qs {
+					v := judge(g, set, qs[k].query())
+					le++
+					lsizes[v.size]++
+					if v.nontrivial {
+						ln++
+						lpm[qs[k].Method]++
+					}
+					if !v.ok {
+						q := qs[k]
+						sh.Fail(common.Failure{Check: "lookup", Class: v.class, Shape: v.shape, Case: lcase{N: n, Path: path, Query: &q, Primed: primed}, Detail: fmt.Sprintf("path=%v\n %s", path, v.detail)})
+					}
 				}
 			}
 		}
@@ -412,7 +459,7 @@ func main() {
 	}
 	r.Set("result_size_histogram", hist)
 	r.Set("nontrivial_per_method", perMethodNontrivial)
-	r.Set("rule", "BFS over all subsets of the universe x {add,remove} x {every singleton, every 2-batch}; after each replayed transition: listing + 10 methods x (4 subjects x 8 predicates x 8 objects as applicable), default options; nontrivial = the model expects at least one result and at least one stored triple does not match")
+	r.Set("rule", "BFS over all subsets of the universe x {add,remove} x {every singleton, every 2-batch}, each transition replayed plainly and with every read issued just before its last write (read, write, read); after each replayed transition: listing + 10 methods x (4 subjects x 8 predicates x 8 objects as applicable), default options; nontrivial = the model expects at least one result and at least one stored triple does not match")
 	r.Sample(map[string]interface{}{"path": paths[order[len(order)/2]], "then": ops[len(ops)/3], "query": qs[len(qs)/2]})
 	r.Sample(map[string]interface{}{"path": paths[order[len(order)-1]], "then": ops[0], "query": qs[0]})
 	r.Finish()
